@@ -236,7 +236,8 @@ func Large(j *job.Job, s *job.Sink) {
 		sizes = append(sizes, 1<<20-1, 1<<20, 1<<20+1, 1<<22+1)
 	}
 	lineLens := []int{0, 1, 7, 64, 1000, 70000} // 0 = no line break at all
-	prefixes := []string{">>", "\t", "a"}
+	// (prefixes longer than any fixed small buffer, too: 16, 17, 40 and 300 bytes)
+	prefixes := []string{">>", "\t", "a", "0123456789012345", "0123456789012345|", strings.Repeat("ab", 20), strings.Repeat("wxyz ", 60)}
 	var idx int64
 	for si, size := range sizes {
 		if si%j.Shards != j.Shard {
